@@ -160,6 +160,9 @@ func inQPClosure(f *ssa.Function) bool {
 	if f.Parent() == nil {
 		return false
 	}
+	if returnedToQP(f) {
+		return true
+	}
 	for _, b := range f.Parent().Blocks {
 		for _, in := range b.Instrs {
 			c, ok := in.(ssa.CallInstruction)
@@ -183,6 +186,94 @@ func inQPClosure(f *ssa.Function) bool {
 		}
 	}
 	return false
+}
+
+// returnedToQP: the function literal f is what its (unexported) parent returns, and every call of the parent in
+// the module hands that result straight to a qp builder function (which runs it under its recover).
+func returnedToQP(f *ssa.Function) bool {
+	par := f.Parent()
+	if par == nil || (par.Object() != nil && par.Object().Exported()) {
+		return false
+	}
+	returned := false
+	for _, b := range par.Blocks {
+		for _, in := range b.Instrs {
+			r, ok := in.(*ssa.Return)
+			if !ok {
+				continue
+			}
+			for _, v := range r.Results {
+				if ct, ok := v.(*ssa.ChangeType); ok {
+					v = ct.X
+				}
+				if mc, ok := v.(*ssa.MakeClosure); ok && mc.Fn == ssa.Value(f) {
+					returned = true
+				}
+			}
+		}
+	}
+	if !returned {
+		return false
+	}
+	origin := par
+	if o := par.Origin(); o != nil {
+		origin = o
+	}
+	sites := 0
+	ok := true
+	visit := func(h *ssa.Function) {
+		for _, b := range h.Blocks {
+			for _, in := range b.Instrs {
+				c, isCall := in.(*ssa.Call)
+				if !isCall {
+					continue
+				}
+				callee := c.Call.StaticCallee()
+				if callee == nil {
+					continue
+				}
+				co := callee
+				if o := callee.Origin(); o != nil {
+					co = o
+				}
+				if co != origin {
+					continue
+				}
+				sites++
+				for _, r := range *c.Referrers() {
+					use, isCallUse := r.(ssa.CallInstruction)
+					if !isCallUse {
+						if _, dbg := r.(*ssa.DebugRef); dbg {
+							continue
+						}
+						ok = false
+						continue
+					}
+					g := paths.StaticCallee(use)
+					if g == nil || !strings.Contains(g.String(), "go-ipld-prime/fluent/qp.") {
+						ok = false
+					}
+				}
+			}
+		}
+	}
+	if par.Pkg == nil && origin.Pkg == nil {
+		return false
+	}
+	pkg := origin.Pkg
+	for _, m := range pkg.Members {
+		if fn, isFn := m.(*ssa.Function); isFn {
+			var walk func(h *ssa.Function)
+			walk = func(h *ssa.Function) {
+				visit(h)
+				for _, a := range h.AnonFuncs {
+					walk(a)
+				}
+			}
+			walk(fn)
+		}
+	}
+	return ok && sites > 0
 }
 
 func panicSites(x *Ctx, fns []*ssa.Function, R map[*ssa.Function]bool) {
@@ -1381,12 +1472,79 @@ func parentKindFact(x *Ctx, f *ssa.Function, fvIdx int, kind int64) bool {
 					}
 				}
 				if !has {
+					// the parent is a helper the code was moved into and the node is its parameter: the fact is
+					// established by its callers
+					if a, ok := mc.Bindings[fvIdx].(*ssa.Alloc); ok && x.P.IsNewHelper(par) {
+						pv, okp := paths.SpilledParam(a).(*ssa.Parameter)
+						if okp && callersKindFact(x, par, pv, kind) {
+							continue
+						}
+					}
 					return false
 				}
 			}
 		}
 	}
 	return found
+}
+
+// callersKindFact: every call of the helper g in the module passes, for its parameter pv, a node whose kind the
+// calling path knows to be kind.
+func callersKindFact(x *Ctx, g *ssa.Function, pv *ssa.Parameter, kind int64) bool {
+	idx := -1
+	for i, q := range g.Params {
+		if q == pv {
+			idx = i
+		}
+	}
+	if idx < 0 {
+		return false
+	}
+	sites := 0
+	for _, f := range x.P.ModuleFuncs() {
+		if !x.P.IsLibrary(f) || len(f.Blocks) == 0 {
+			continue
+		}
+		calls := false
+		for _, b := range f.Blocks {
+			for _, in := range b.Instrs {
+				if c, ok := in.(ssa.CallInstruction); ok && c.Common().StaticCallee() == g {
+					calls = true
+				}
+			}
+		}
+		if !calls {
+			continue
+		}
+		var callsites []*ssa.Call
+		for _, b := range f.Blocks {
+			for _, in := range b.Instrs {
+				if c, ok := in.(*ssa.Call); ok && c.Call.StaticCallee() == g && idx < len(c.Call.Args) {
+					callsites = append(callsites, c)
+				}
+			}
+		}
+		for _, p := range x.pathsQuiet(f) {
+			for _, call := range callsites {
+				if !p.InBlock(call.Block()) {
+					continue
+				}
+				sites++
+				arg := p.Term(call.Call.Args[idx]).String()
+				has := false
+				for _, fc := range p.Facts {
+					s := fc.Atom.String()
+					if fc.Pol && fc.Atom.Op == "eq" && strings.Contains(s, fmt.Sprintf("const(%d)", kind)) && strings.Contains(s, "Node.Kind]("+arg+")") {
+						has = true
+					}
+				}
+				if !has {
+					return false
+				}
+			}
+		}
+	}
+	return sites > 0
 }
 
 // selfName: the name, in caller f's vocabulary, of the parameter that corresponds to position i of
